@@ -13,6 +13,9 @@ static int write_file(sqfs_writer_t *sqfs, sqfs_dir_iterator_t *it,
 	sqfs_ostream_t *out;
 	sqfs_istream_t *in;
 
+	if (file_exceeds_block_list(ent->size, cfg.block_size))
+		return SQFS_ERROR_OVERFLOW;
+
 	if (no_tail_pack && ent->size > cfg.block_size)
 		flags |= SQFS_BLK_DONT_FRAGMENT;
 
